@@ -344,7 +344,8 @@ def parseMember (S : Schema) (fuel : Nat) (fields : List FieldDesc) (sm : Scanne
          | .rep n arr =>
            if usesPackedPath f sm.wt then
              (parsePacked f.type (sm.data.drop sm.prefLen)).map
-               (fun vs => .mk ty (setSlot slots i (.rep (n + vs.length) (some (arr.getD [] ++ vs)))) unk)
+               (fun vs => .mk ty (setSlot slots i (.rep (n + vs.length)
+                   (if (arr.getD [] ++ vs).isEmpty then arr else some (arr.getD [] ++ vs)))) unk)   -- no array is allocated for zero elements
            else
              (parseRequired S fuel f sm .zero false).map
                (fun v => .mk ty (setSlot slots i (.rep (n + 1) (some (arr.getD [] ++ [v])))) unk)
